@@ -205,8 +205,17 @@ func timeline(t *testing.T, r *rand.Rand, dir string, steps int) ([]Event, []str
 			case k < 30 && !cancelled:
 				for b := 1 + r.Intn(3)*r.Intn(2); b > 0; b-- { // single writes and bursts
 					nwrites++
-					if _, err := d.Put(su, fmt.Sprintf("k%d", r.Intn(3)), []byte(fmt.Sprintf("value %d", nwrites))); err != nil {
+					gw := d.WriteGen()
+					if r.Intn(4) == 0 {
+						// the file also shrinks: a secret with all its versions goes (an absent one: nothing is written)
+						if err := d.Delete(su, fmt.Sprintf("k%d", r.Intn(3))); err != nil {
+							t.Fatal(err)
+						}
+					} else if _, err := d.Put(su, fmt.Sprintf("k%d", r.Intn(3)), bytes.Repeat([]byte(fmt.Sprintf("value %d ", nwrites)), 1+r.Intn(40))); err != nil {
 						t.Fatal(err)
+					}
+					if d.WriteGen() == gw {
+						continue // nothing was written (an absent secret deleted)
 					}
 					e.log(Event{"ev": "write", "gen": int(d.WriteGen() - gen0 + 1), "sha": sum(file())})
 				}
